@@ -516,3 +516,28 @@ V("C19-len-ignores-mutations", "C19", ["C19.R3"], [(LMAP, "        return len(se
 V("C19-setitem-no-reorder", "C19", ["C19.R4"], [(FORMULA, "        self.__terms[key] = value\n        self._reorder()", "        self.__terms[key] = value")])
 V("C19-init-no-reorder", "C19", ["C19.R4"], [(FORMULA, "        self.__validate_terms(self.__terms)\n\n        self._reorder()", "        self.__validate_terms(self.__terms)")])
 V("C19-insert-no-validate", "C19", ["C19.R4"], [(FORMULA, "        self.__validate_terms([value])\n        self.__terms.insert(index, value)", "        self.__terms.insert(index, value)")])
+
+# ----------------------------------------------------------------------------------------- C08
+V("C08-revert-stringdtype", "C08", ["C08.R1"], [(PANDAS, "                values.dtype, (pandas.CategoricalDtype, pandas.StringDtype)", "                values.dtype, pandas.CategoricalDtype")],
+  "origin: revert f6d49e3 (pandas>=3 'str' columns copied raw into the matrix)")
+V("C08-object-dropped", "C08", ["C08.R1"], [(PANDAS, "            return values.dtype == object or isinstance(", "            return isinstance(")])
+V("C08-narwhals-inverted", "C08", ["C08.R1"], [(NARWHALS, "            if not values.dtype.is_numeric():\n                return True", "            if values.dtype.is_numeric():\n                return True")])
+V("C08-kind-equiv", "C08", [], [(PANDAS, "            return values.dtype == object or isinstance(\n                values.dtype, (pandas.CategoricalDtype, pandas.StringDtype)\n            )",
+                                   "            if values.dtype == object:\n                return True\n            return isinstance(values.dtype, (pandas.StringDtype, pandas.CategoricalDtype))")])
+V("C08-unknown-cached", "C08", ["C08.R2"], [(BASE, "                value = FactorValues(value, kind=kind, spans_intercept=spans_intercept)\n", "                pass\n")])
+V("C08-numerical-spans", "C08", ["C08.R2"], [(BASE, "                    kind = Factor.Kind.NUMERICAL\n                    spans_intercept = False", "                    kind = Factor.Kind.NUMERICAL\n                    spans_intercept = True")])
+V("C08-levels-sorted", "C08", ["C08.R3"], [(CONTRASTS, "        data = pandas.Series(pandas.Categorical(data, categories=levels))", "        data = pandas.Series(pandas.Categorical(data, categories=sorted(levels)))")])
+V("C08-categories-sorted", "C08", ["C08.R3"], [(CONTRASTS, "        categories = list(data.cat.categories)", "        categories = sorted(data.cat.categories)")])
+
+# ----------------------------------------------------------------------------------------- C09
+V("C09-revert-encoder-state-pool", "C09", ["C09.R1"], [(BASE, "                transform_state=transform_state,\n                encoder_state=encoder_state,\n", "                transform_state=transform_state,\n")],
+  "origin: revert 1ebef3b (kind guard never sees the recorded kinds)")
+V("C09-encoder-state-not-fed", "C09", ["C09.R1"], [(BASE, "            encoder_state.update(model_spec.encoder_state)\n", "")])
+V("C09-na-action-not-pooled", "C09", ["C09.R1"], [(BASE, "                na_action=next(iter(na_action)),\n", "")])
+V("C09-guard-inverted", "C09", ["C09.R1"], [(BASE, "                and value.__formulaic_metadata__.kind\n                is not spec.encoder_state[factor.expr][0]", "                and value.__formulaic_metadata__.kind\n                is spec.encoder_state[factor.expr][0]")])
+V("C09-too-many-tolerated", "C09", ["C09.R2"], [(BASE, "            if len(scoped_cols) > len(target_cols):\n                raise FactorEncodingError(", "            if len(scoped_cols) > len(target_cols) + 1:\n                raise FactorEncodingError(")])
+V("C09-mismatch-tolerated", "C09", ["C09.R2"], [(BASE, "            elif set(scoped_cols) != set(target_cols):", "            elif not set(scoped_cols) & set(target_cols):")])
+V("C09-yield-generated-order", "C09", ["C09.R2"], [(BASE, "                {col: scoped_cols[col] for col in target_cols},", "                dict(scoped_cols),")])
+V("C09-no-warning", "C09", ["C09.R3"], [(CONTRASTS, "        if extra_categories:\n            warnings.warn(", "        if False:\n            warnings.warn(")])
+V("C09-levels-not-pinned", "C09", ["C09.R3"], [(CONTRASTS, "        levels if levels is not None else _state.get(\"categories\")", "        levels")])
+V("C09-categorical-unpinned", "C09", ["C09.R3"], [(CONTRASTS, "        data = pandas.Series(pandas.Categorical(data, categories=levels))", "        data = pandas.Series(pandas.Categorical(data))")])
